@@ -355,6 +355,19 @@ def rule_siblings(ctx, repo, ci):
     # insert sets, contains tests
     sets = [n for n in walk_no_nested(ins.node) if isinstance(n, ast.AugAssign) and isinstance(n.op, ast.BitOr) and norm(n.target).startswith('self.vData[')]
     r.check(len(sets) == 1, 'insert:sets-bit', ins.site, 'vData[byte] |= mask', 'insert does not set the bit with |=')
+    # every scheduled index gets its bit: the loop over the hash functions is never left early and the store is unconditional
+    for lp_ in [n for n in walk_no_nested(ins.node) if isinstance(n, ast.For)]:
+        if not any(x in sets for x in ast.walk(lp_)):
+            continue
+        early = [x for x in ast.walk(lp_) if isinstance(x, (ast.Break, ast.Continue, ast.Return))]
+        uncond = any(x in sets for x in lp_.body)
+        if early:
+            r.violated('insert:every-index', common.site_of(ins, early[0]), 'the loop over the hash functions of insert() can leave or skip with `%s` before a bit is set: the bits of the remaining '
+                       'hash functions stay clear, and contains() then reports the element just inserted as absent' % norm(early[0]), sure=True)
+        elif not uncond:
+            r.undecided('insert:every-index', common.site_of(ins, lp_), 'the bit store sits under a condition inside the loop')
+        else:
+            r.ok('insert:every-index', common.site_of(ins, lp_), 'one unconditional store per hash function')
     rets = [(norm(n.value), n) for n in walk_no_nested(con.node) if isinstance(n, ast.Return)]
     inloop = [t for t, n in rets if isinstance(getattr(getattr(n, '_parent', None), '_parent', None), ast.For) or isinstance(getattr(n, '_parent', None), ast.For)]
     last = _body(con)[-1]
